@@ -347,12 +347,43 @@ pub fn c05_judge(acc: &mut Acc, shrunk: &axcut::syntax::Prog, args_list: &[Vec<i
     any
 }
 
+/// a directly generated non-linear AxCut program (regenerated from its seed on replay)
+pub fn axgen_case(seed: u64, prints: bool) -> (axcut::syntax::Prog, Vec<Vec<i64>>) {
+    let mut rng = crate::rng::Rng::new(seed);
+    let prof = crate::gen_axcut::AxProfile::random(&mut rng, prints);
+    let prog = crate::gen_axcut::generate(&mut rng, prof);
+    let n = prog.defs[0].context.bindings.len();
+    let args = vec![(0..n).map(|_| rng.range(-5, 9)).collect::<Vec<i64>>(), (0..n).map(|_| rng.small_i64()).collect()];
+    (prog, args)
+}
+
 pub fn c05(ctx: &Ctx, acc: &mut Acc) {
     let max_cases: u64 = if ctx.quick() { 6_000 } else { 100_000_000 };
     let mut i = 0u64;
     while ctx.time_left() && i < max_cases {
         let seed = ctx.case_seed(i);
         i += 1;
+        if i % 2 == 0 {
+            // directly generated AxCut program
+            let (prog, args) = axgen_case(seed, true);
+            match ty_axcut::check_named(&prog) {
+                Ok(_) => {}
+                Err(m) => {
+                    acc.infra(format!("gen_axcut produced an ill-typed program (generator defect): {m}"));
+                    continue;
+                }
+            }
+            acc.count("directly_generated_axcut_programs");
+            let origin = format!("gen_axcut seed={seed}");
+            let before = acc.violations.len();
+            if c05_judge(acc, &prog, &args, "", &origin) {
+                acc.nontrivial(seed);
+            }
+            for v in acc.violations.iter_mut().skip(before) {
+                v.replay.set("axgen_seed", J::s(seed.to_string()));
+            }
+            continue;
+        }
         let case = gen_fun_case(seed, EffectMode::Anywhere, |_, _| {});
         let shrunk = match pipeline::front(&case.src).and_then(pipeline::to_core).and_then(pipeline::focus).and_then(pipeline::shrink) {
             Ok(c) => c,
@@ -556,6 +587,11 @@ pub fn replay(prop: &str, payload: &J, acc: &mut Acc) {
             if let Ok(f) = pipeline::front(&src).and_then(pipeline::to_core).and_then(pipeline::focus) {
                 c04_judge(acc, &f, &args, &src, "replay");
             }
+        }
+        "C05" if payload.get("axgen_seed").is_some() => {
+            let seed: u64 = payload.get("axgen_seed").and_then(|s| s.as_str()).and_then(|s| s.parse().ok()).unwrap_or(0);
+            let (prog, args) = axgen_case(seed, true);
+            c05_judge(acc, &prog, &args, "", "replay");
         }
         "C05" => {
             if let Ok(s) = pipeline::front(&src).and_then(pipeline::to_core).and_then(pipeline::focus).and_then(pipeline::shrink) {
